@@ -84,6 +84,16 @@ class Driver:
         if not trees_equal_mod_conflicted(tl, tr, self.fold(w)):
             obs = {"L": _show_tree(tl), "R": _show_tree(tr)}
             vs.append(viol("diverge", digest(json.dumps(obs, sort_keys=True)), obs))
+        # "once ... the engine reports nothing left to do": a state in which no step changes anything any more but the engine
+        # still reports pending work is the engine looping in place
+        try:
+            busy = bool(w.cs.busy)
+        except Exception:
+            busy = False
+        if busy and self.prop == "C01":
+            pend = sorted(str(e[0]._path or e[1]._path) for e in w.cs.state._changeset)
+            vs.append(viol("quiet-but-busy", ",".join(p.rsplit("/", 1)[-1] for p in pend)[:60],
+                           {"pending": pend, "L": _show_tree(tl), "R": _show_tree(tr)}))
         return self.observe(w), vs
 
 
